@@ -27,6 +27,8 @@ pub enum Case {
     /// annotation accessors: type 0..3, the fields set (by index into that type's field list)
     Annotations { kind: u8, fields: Vec<usize> },
     ForeignArtifactType,
+    /// an archive written by another conforming implementation (ocipkg directly, published media types)
+    ForeignLayers { layers: Vec<LayerRep> },
 }
 
 thread_local! {
@@ -45,13 +47,19 @@ fn scratch_file() -> std::path::PathBuf {
     })
 }
 
+/// Published media types (ARTIFACT.md and the Python SDK), as literals: the reference must not be
+/// derived from the SDK's own constants.
+pub const MEDIA_TYPES: [&str; 4] = [
+    "application/org.ommx.v1.instance",
+    "application/org.ommx.v1.parametric-instance",
+    "application/org.ommx.v1.solution",
+    "application/org.ommx.v1.sample-set",
+];
+pub const ARTIFACT_TYPE: &str = "application/org.ommx.v1.artifact";
+const KIND_NAMES: [&str; 4] = ["instance", "parametric-instance", "solution", "sample-set"];
+
 fn media_type_of(kind: u8) -> ocipkg::distribution::MediaType {
-    match kind {
-        0 => media_types::v1_instance(),
-        1 => media_types::v1_parametric_instance(),
-        2 => media_types::v1_solution(),
-        _ => media_types::v1_sample_set(),
-    }
+    ocipkg::distribution::MediaType::Other(MEDIA_TYPES[kind as usize].to_string())
 }
 
 fn instance_msg(variant: u8) -> v1::Instance {
@@ -353,6 +361,7 @@ pub fn check_case(l: &mut Local, case: &Case) {
     match case {
         Case::Sequence { layers } => check_sequence(l, case, layers),
         Case::Annotations { kind, fields } => check_annotations(l, case, *kind, fields),
+        Case::ForeignLayers { layers } => check_foreign_layers(l, case, layers, "foreign-archive"),
         Case::ForeignArtifactType => {
             l.transitions += 1;
             l.nontrivial += 1;
@@ -371,6 +380,75 @@ pub fn check_case(l: &mut Local, case: &Case) {
                 Ok(Err(e)) => panic!("ENGINE: cannot build a foreign OCI artifact: {e}"),
                 Ok(Ok(true)) => l.violation("foreign-artifact-type/manifest-accepted", || json!(case), "get_manifest succeeded on an image whose artifact type is not application/org.ommx.v1.artifact".into()),
                 Ok(Ok(false)) => {}
+            }
+        }
+    }
+}
+
+/// Builds an archive WITHOUT the SDK's builder (ocipkg + the published media types and annotation
+/// keys) and reads it with the SDK's typed getters.
+pub fn check_foreign_layers(l: &mut Local, case: &impl Serialize, layers: &[LayerRep], tag: &str) {
+    l.transitions += 1;
+    l.nontrivial += 1;
+    let path = scratch_file();
+    let r = sdk(|| -> Result<Vec<(String, String)>, String> {
+        let ab = ocipkg::image::OciArchiveBuilder::new_unnamed(path.clone()).map_err(|e| format!("{e:#}"))?;
+        let mut b = ocipkg::image::OciArtifactBuilder::new(ab, ocipkg::distribution::MediaType::Other(ARTIFACT_TYPE.to_string())).map_err(|e| format!("{e:#}"))?;
+        let mut stored = vec![];
+        for (i, ly) in layers.iter().enumerate() {
+            let bytes = bytes_of(ly);
+            let mut ann = HashMap::new();
+            if ly.annotated {
+                ann.insert(format!("org.ommx.v1.{}.{}", KIND_NAMES[ly.kind as usize], if ly.kind <= 1 { "title" } else { "parameters" }), if ly.kind <= 1 { format!("foreign-{i}") } else { "{\"k\":1.0}".to_string() });
+            }
+            b.add_layer(media_type_of(ly.kind), &bytes, ann.clone()).map_err(|e| format!("{e:#}"))?;
+            stored.push((ly.kind, bytes, ann));
+        }
+        b.build().map_err(|e| format!("{e:#}"))?;
+        let mut a = Artifact::from_oci_archive(&path).map_err(|e| format!("{e:#}"))?;
+        let mut bad = vec![];
+        if let Err(e) = a.get_manifest() {
+            bad.push(("manifest-rejected".to_string(), format!("get_manifest failed on a conforming archive: {e:#}")));
+        }
+        for (i, (kind, bytes, _)) in stored.iter().enumerate() {
+            let first = stored.iter().position(|x| x.1 == *bytes).unwrap();
+            if stored[first].0 != *kind {
+                continue; // digest shared with an earlier layer of another kind
+            }
+            let d = Digest::new(&sha256_digest(bytes)).map_err(|e| format!("{e:#}"))?;
+            let kname = KIND_NAMES[*kind as usize];
+            let res: Result<(Vec<u8>, Option<String>), String> = match kind {
+                0 => a.get_instance(&d).map(|(m, an)| (m.encode_to_vec(), an.title().ok().cloned())).map_err(|e| format!("{e:#}")),
+                1 => a.get_parametric_instance(&d).map(|(m, an)| (m.encode_to_vec(), an.title().ok().cloned())).map_err(|e| format!("{e:#}")),
+                2 => a.get_solution(&d).map(|(m, an)| (m.encode_to_vec(), an.parameters::<BTreeMap<String, f64>>().ok().map(|p| format!("{p:?}")))).map_err(|e| format!("{e:#}")),
+                _ => a.get_sample_set(&d).map(|(m, an)| (m.encode_to_vec(), an.parameters::<BTreeMap<String, f64>>().ok().map(|p| format!("{p:?}")))).map_err(|e| format!("{e:#}")),
+            };
+            match res {
+                Err(e) => bad.push((format!("{kname}/published-media-type-rejected"), format!("layer {i} stored under {} is not readable through the {kname} getter: {e}", MEDIA_TYPES[*kind as usize]))),
+                Ok((m, an)) => {
+                    if m != *bytes {
+                        bad.push((format!("{kname}/message"), format!("layer {i}: decoded message differs")));
+                    }
+                    if stored[first].2.is_empty() != an.is_none() {
+                        bad.push((format!("{kname}/published-annotation-key-not-read"), format!("layer {i}: annotation stored under the published key is read back as {an:?}")));
+                    }
+                }
+            }
+            match a.get_layer_descriptors(&media_type_of(*kind)) {
+                Ok(ds) if ds.len() == stored.iter().filter(|x| x.0 == *kind).count() => {}
+                Ok(ds) => bad.push((format!("{kname}/descriptor-listing"), format!("{} descriptors listed for the published media type, {} stored", ds.len(), stored.iter().filter(|x| x.0 == *kind).count()))),
+                Err(e) => bad.push((format!("{kname}/descriptor-listing"), format!("{e:#}"))),
+            }
+        }
+        Ok(bad)
+    });
+    let _ = std::fs::remove_file(&path);
+    match r {
+        Err(p) => l.violation(&format!("{tag}/panic"), || json!(case), p),
+        Ok(Err(e)) => panic!("ENGINE: cannot build a foreign OCI archive: {e}"),
+        Ok(Ok(bad)) => {
+            for (sig, d) in bad {
+                l.violation(&format!("{tag}/{sig}"), || json!(case), d);
             }
         }
     }
@@ -515,6 +593,17 @@ fn check_annotations(l: &mut Local, case: &Case, kind: u8, fields: &[usize]) {
     let layer = LayerRep { kind, variant: 1, annotated: false };
     let ann = annotations_map(kind, fields, salt);
     l.outcome(&(kind, fields));
+    for k in ann.keys() {
+        let field = names.iter().map(|n| n.split('-').next().unwrap().trim_end_matches(char::is_numeric)).find(|n| k.ends_with(&format!(".{n}")));
+        let want = field.map(|f| format!("org.ommx.v1.{}.{f}", KIND_NAMES[kind as usize]));
+        if !k.starts_with("org.example.") && want.as_deref() != Some(k.as_str()) {
+            l.violation(
+                &format!("annotations/{}/key-not-the-published-one", KIND_NAMES[kind as usize]),
+                || json!(case),
+                format!("annotation stored under key {k}; published keys have the form org.ommx.v1.{}.<field>", KIND_NAMES[kind as usize]),
+            );
+        }
+    }
     let r = sdk(|| -> Result<Vec<String>, String> {
         let path = scratch_file();
         let mut b = Builder::new_archive_unnamed(path.clone()).map_err(|e| format!("{e:#}"))?;
@@ -640,6 +729,18 @@ pub fn run(ctx: &Ctx) -> Finish {
         });
     }
     ctx.seq(|l| check_case(l, &Case::ForeignArtifactType));
+    // archives written by another conforming implementation: every kind alone and all pairs of kinds
+    ctx.seq(|l| {
+        for a in 0..4u8 {
+            for annotated in [false, true] {
+                check_case(l, &Case::ForeignLayers { layers: vec![LayerRep { kind: a, variant: 1, annotated }] });
+            }
+            for b in 0..4u8 {
+                check_case(l, &Case::ForeignLayers { layers: vec![LayerRep { kind: a, variant: 1, annotated: true }, LayerRep { kind: b, variant: 2, annotated: false }] });
+            }
+        }
+    });
+    ctx.assume("Published media types and annotation keys are literals in the harness (ARTIFACT.md; python SDK): application/org.ommx.v1.{instance,parametric-instance,solution,sample-set}, org.ommx.v1.<kind>.<field>.");
     ctx.assume("When several layers share a digest (equal bytes), a digest-only lookup cannot distinguish them: the typed getter is asserted against the first layer with that digest when that layer has the requested kind, must fail when no layer with that digest has the requested kind, and is not asserted otherwise. Positional listings (manifest, get_layer_descriptors, get_instances, get_solutions) are asserted strictly.");
     Finish {
         level: "model_checking",
